@@ -1207,7 +1207,7 @@ fn query<'t, P: Program<'t>>(p: &P, label: Value, is_any: bool, model: Option<Mo
 }
 
 /// Syntactic triggers of the listed C09 findings on the reference parse.
-fn c09_key(ast: Option<&Ast>) -> Option<&'static str> {
+pub fn c09_key(ast: Option<&Ast>) -> Option<&'static str> {
     let ast = ast?;
     // A branch token written after a tree wildcard (any depth, textual order).
     // A branch token written after a tree wildcard or after an open-ended repetition (any depth,
